@@ -70,9 +70,28 @@ func doC08(c *libaudit.AuditClient, op int) opObs {
 // execC08 runs one history under one environment and applies the oracle.
 func execC08(hist []int, nRules int, env *envdfs.Env, errTexts map[string]map[int]string) (viol []Viol, log string, ops int64) {
 	sim := ksim.New(env)
+	statusLen := 44
+	if nRules >= 100 {
+		// nRules 132/136/140/148: a kernel of an older / newer layout answering AUDIT_GET with
+		// 32/36/40/48 bytes (and holding 1 rule)
+		statusLen = nRules - 100
+		nRules = 1
+	}
 	sim.Rules = simRules(nRules)
 	for i := range sim.Status {
 		sim.Status[i] = uint32(0x01010101 * (i + 1))
+	}
+	if statusLen != 44 {
+		raw := sim.StatusBytes()
+		for len(raw) < statusLen {
+			raw = append(raw, 0xEE)
+		}
+		sim.StatusRaw = raw[:statusLen]
+		for i := range sim.Status {
+			if 4*i+4 > statusLen {
+				sim.Status[i] = 0 // fields the reply does not reach are zero
+			}
+		}
 	}
 	c := &libaudit.AuditClient{Netlink: sim}
 	fail := func(sig, format string, a ...interface{}) {
@@ -241,6 +260,10 @@ func checkC08(tier string) int {
 	// a kernel holding 5 rules of different lengths: listing / deleting several rules in one call
 	for _, c := range chunk(allHistories([]int{1, 4}, 2), 4) {
 		jobs = append(jobs, Job{Kind: "c08", Histories: c, NRules: 5, Bound: 2})
+	}
+	// kernels answering AUDIT_GET with the 32/36/40/48-byte layouts
+	for _, sl := range []int{132, 136, 140, 148} {
+		jobs = append(jobs, Job{Kind: "c08", Histories: allHistories([]int{0, 5}, 2), NRules: sl, Bound: 1})
 	}
 	// single-op histories with deviation bound 3 (reaches e.g. 9 x EINTR, event, 1 x EINTR)
 	for _, nr := range []int{0, 2} {
